@@ -78,12 +78,16 @@ func (t *simTask) Start() {
 	switch t.kind {
 	case kRet:
 	case kSleep:
+		w.sleeping++
 		simrt.Sleep(t.sleep)
+		w.sleeping--
 	case kPanic:
 		w.raised = append(w.raised, t.pv)
 		panic(t.pv)
 	case kSleepPanic:
+		w.sleeping++
 		simrt.Sleep(t.sleep)
+		w.sleeping--
 		w.raised = append(w.raised, t.pv)
 		panic(t.pv)
 	case kGate:
@@ -113,6 +117,7 @@ type world struct {
 	waitReturned bool // some Wait() has returned
 	nWaiters     int  // concurrent callers of Wait()
 	nilPushed    bool // nil Tasks were pushed (their starts cannot be observed)
+	sleeping     int  // tasks inside a simulated Sleep (they move when time passes)
 	waitsBack    int
 	waitSeq      uint64
 	raised       []any
@@ -306,11 +311,21 @@ func (w *world) main() {
 		"cancel_before_gates": cancelFirst, "panicky": panicky}
 
 	var cancel simrt.CancelFunc
+	var longDeadline time.Duration
 	switch ctxKind {
 	case 0, 1, 2:
 		w.ctx, cancel = simrt.WithCancel(simrt.Background())
 	case 3:
-		d := []time.Duration{200 * time.Microsecond, 2 * time.Millisecond, 15 * time.Millisecond, 300 * time.Millisecond}[ch("ctx.deadline", 4)]
+		d := []time.Duration{200 * time.Microsecond, 2 * time.Millisecond, 15 * time.Millisecond, 300 * time.Millisecond, 2500 * time.Millisecond}[ch("ctx.deadline", 5)]
+		if d > time.Second {
+			// a deadline far enough away for the whole load to be served first:
+			// the run then waits until 300 ms before it and opens the gates there
+			simrt.Probe("long_deadline")
+			longDeadline = d
+			if w.timeout > 10*time.Millisecond {
+				w.timeout = 10 * time.Millisecond // every push is over long before the gates open
+			}
+		}
 		w.ctx, cancel = simrt.WithTimeout(simrt.Background(), d)
 	case 4:
 		w.ctx, cancel = simrt.WithCancel(simrt.Background())
@@ -477,14 +492,22 @@ func (w *world) main() {
 	} else if w.live() && w.inPush > 0 {
 		simrt.Probe("blocked_push_with_all_workers_busy")
 	}
-	simrt.Settle()
+	if longDeadline > 0 {
+		// every push timeout and every sleeping task is over well before this
+		simrt.Sleep(time.Duration(int64(longDeadline-300*time.Millisecond) - simrt.Elapsed()))
+		simrt.Quiesce()
+	} else {
+		simrt.Settle()
+	}
 	if ctxKind == 3 && !w.live() {
 		simrt.Fault("ctx.deadline_fired")
 	}
 
-	// every PushTask has returned by now (accepted, timed out or released)
+	// every PushTask has returned by now (accepted, timed out or released); not
+	// claimed in the long-deadline run, where timers are still ahead (a starved
+	// producer may have begun a push only now) - the end of the run checks it
 	for p, d := range w.prodDone {
-		if !d {
+		if !d && longDeadline == 0 {
 			if w.live() {
 				w.violate("C06", "push-never-returned", fmt.Sprintf("producer %d is still inside PushTask after every timer has fired", p), "push-never-returned")
 			} else {
@@ -522,6 +545,25 @@ func (w *world) main() {
 
 	// phase F: open the gates
 	gate.Close()
+	if longDeadline > 0 && w.live() {
+		// the context given to New is live for another 300 ms: 200 ms after the gates
+		// opened (sleeping tasks take 20 ms at most) and with everything at rest
+		// again, every accepted task has been started
+		simrt.Sleep(200 * time.Millisecond)
+		simrt.Quiesce()
+		// (the simulator may have let that timer fire while tasks were still
+		// runnable - a slow machine - so a sleeping task can still occupy a
+		// worker; the claim is only made when no task is executing at all)
+		if w.live() && w.running == 0 {
+			simrt.Probe("long_deadline_checked")
+			for _, t := range w.tasks {
+				if t.returned && t.pushErr == nil && t.startCount != 1 {
+					w.violate("C06", "accepted-never-started", fmt.Sprintf("task %d accepted on lane %d started %d times although no task is executing, nothing else can move and the context (deadline %v) is still live", t.id, t.lane, t.startCount, longDeadline), "accepted-never-started")
+					break
+				}
+			}
+		}
+	}
 	simrt.Settle()
 	if w.gatePanics >= 2 {
 		simrt.Probe("concurrent_recover_2plus")
@@ -682,6 +724,14 @@ func samePanic(a, b any) (eq bool) {
 	return a == b
 }
 
+func (w *world) totalStarts() int {
+	n := 0
+	for _, t := range w.tasks {
+		n += t.startCount
+	}
+	return n
+}
+
 func (w *world) pendingAccepted() int {
 	n := 0
 	for _, t := range w.tasks {
@@ -693,8 +743,20 @@ func (w *world) pendingAccepted() int {
 }
 
 func (w *world) checkPending(when string) {
+	// "at rest" is sampled BEFORE Status() is called and confirmed after it:
+	// Status() takes several steps, and simulated time may pass inside it
+	restBefore := w.inPush == 0 && w.sleeping == 0
+	startsBefore := w.totalStarts()
 	st := w.lane.Status()
 	if !w.live() {
+		return
+	}
+	if !restBefore || w.totalStarts() != startsBefore || w.inPush > 0 || w.sleeping > 0 {
+		// not at rest (possible at the checkpoints of the long-deadline run, which
+		// follow a Quiesce with timers still ahead, not a Settle): a producer is
+		// inside PushTask, or a task is asleep and will free its worker when its
+		// timer fires - Status() is not atomic, the lane may move while it is read.
+		// Tasks blocked on the closed gate cannot move: pinned workers are at rest.
 		return
 	}
 	want := w.pendingAccepted()
